@@ -15,6 +15,8 @@
 (*               whole budget                                              *)
 (*   ExitOK      the call ends after a converged cycle or after `resets`   *)
 (*               cycles, and reports convergence iff its last cycle did    *)
+(* BiCGSTAB (BiCGSTAB_reset): at most nmax iterations, and the loop is     *)
+(* left early only when the relative residual is below eps (BiOK).         *)
 (***************************************************************************)
 EXTENDS Integers, Sequences, FiniteSets, TLC
 
@@ -22,4 +24,6 @@ KMin2(a, b) == IF a <= b THEN a ELSE b
 Budget(n, maxit) == KMin2(maxit, n)
 CycleOK(steps, conv, n, maxit) == /\ steps >= 0 /\ steps <= Budget(n, maxit)
                                   /\ (~conv => steps = Budget(n, maxit))
+BiOK(nit, nmax, relres, eps, slack) == /\ nit >= 1 /\ nit <= nmax
+                                       /\ (nit < nmax => relres < eps + slack)
 =============================================================================
